@@ -10,7 +10,7 @@ Separate Extraction
   CInt LeafC LeafC_BE Desc Mem Enc Size.size_msg Pack.pack_msg PackBuf.chunks_msg
   Unpack.unpack_top Unpack.merge_messages Unpack.init_msg Check.check_msg
   BufSimple.buf_init BufSimple.buf_appends BufSimple.buf_clear BufSimple.live_blocks BufSimple.plan_of_list
-  WF.wf_msg Canon.canon_msg Canon.env_ok Defect.defect_msg Ledger.monitor Norm.norm_msg WNorm.wnorm_msg Typed.typed_msg Heap.h_unpack Heap.h_free Heap.h_run
+  WF.wf_msg Canon.canon_msg Canon.env_ok Defect.defect_msg Ledger.monitor Norm.norm_msg WNorm.wnorm_msg Typed.typed_msg Typed.unk_small Heap.h_unpack Heap.h_free Heap.h_run
   Ranges.mk_ranges Ranges.dedup_sorted
   Gen.gen_all Gen.init_state Gen.file_supported
   LookupModel.name_search LookupModel.msg_field_by_name LookupModel.msg_field_by_number
